@@ -82,8 +82,20 @@ func disabled(mask int) (map[string]bool, gostatsd.TimerSubtypes) {
 		for _, k := range subKeys {
 			d[k] = true
 		}
-	case mask >= 2:
+	case mask >= 2 && mask < 2+len(subKeys):
 		d[subKeys[mask-2]] = true
+	case mask == 2+len(subKeys): // every non-percentile sub-metric ("percentiles only")
+		for _, k := range subKeys {
+			if !strings.HasSuffix(k, "-pct") {
+				d[k] = true
+			}
+		}
+	case mask == 3+len(subKeys): // every percentile sub-metric
+		for _, k := range subKeys {
+			if strings.HasSuffix(k, "-pct") {
+				d[k] = true
+			}
+		}
 	}
 	return d, gostatsd.TimerSubtypes{Lower: d["lower"], LowerPct: d["lower-pct"], Upper: d["upper"], UpperPct: d["upper-pct"], Count: d["count"], CountPct: d["count-pct"],
 		CountPerSecond: d["count-per-second"], Mean: d["mean"], MeanPct: d["mean-pct"], Median: d["median"], StdDev: d["stddev"], Sum: d["sum"], SumPct: d["sum-pct"], SumSquares: d["sum-squares"], SumSquaresPct: d["sum-squares-pct"]}
@@ -363,6 +375,7 @@ func decodeOTLP(c *capture, body []byte, batch int) {
 				n++
 				add := func(attrs []*commonpb.KeyValue, vals ...float64) {
 					tags := append(append([]string{}, ra...), attrStr(attrs)...)
+					sort.Strings(tags)
 					sort.Float64s(vals)
 					c.entries = append(c.entries, entry{Name: m.Name, Tags: tags, Vals: vals})
 				}
@@ -448,7 +461,13 @@ func runBackend(kind string, batch int, ms mapSpec, mm *gostatsd.MetricMap) (*ca
 	o := vsched.RunOnce(func() {
 		ctx, _ := fx.NewClock(context.Background())
 		var err error
-		b, err = bk.New(kind, bk.Opts{BatchSize: batch, Disabled: d, Compress: batch%2 == 1, MaxRequests: 2})
+		opts := bk.Opts{BatchSize: batch, Disabled: d, Compress: batch%2 == 1, MaxRequests: 2}
+		if strings.HasPrefix(kind, "otlp") && batch%2 == 1 {
+			// odd batch sizes also split the series over several OTLP resources (by the value of tag k and by host);
+			// the decoded entries are the same (resource and data point attributes are joined), the batch limit must hold
+			opts.ResourceKeys = []string{"k", "host"}
+		}
+		b, err = bk.New(kind, opts)
 		if err != nil {
 			cerr = err.Error()
 			return
@@ -1055,7 +1074,7 @@ func main() {
 	for _, sp := range specs {
 		masks := []int{0}
 		if hasTimer(sp) && len(sp) <= 2 {
-			for m := 1; m < 2+len(subKeys); m++ {
+			for m := 1; m < 4+len(subKeys); m++ {
 				masks = append(masks, m)
 			}
 		}
